@@ -35,6 +35,10 @@ type c08Lane struct {
 	// Expiry Interval; "session end or delay, whichever comes first" is then decided by the NEW interval
 	DiscExpiryS int  `json:"disconnect_expiry_s,omitempty"`
 	TKClean     bool `json:"takeover_clean,omitempty"` // ending disc0_takeover: Clean Start of the connection that takes over
+	// Then (after = resume): what becomes of the connection that resumed the session (it has no will of its own):
+	// "" it stays; disc0_clean / disc0_terminate: it disconnects normally and the session is then ended by a CONNECT with
+	// Clean Start 1 / by TerminateSession - the will of the FIRST connection has been decided long before and must not reappear
+	Then string `json:"then,omitempty"`
 }
 
 type c08Scen struct {
@@ -84,6 +88,9 @@ func genC08(t *rapid.T) c08Scen {
 		default:
 			l.After = rapid.SampledFrom([]string{"none", "none", "resume", "clean", "terminate"}).Draw(t, "after")
 			l.AfterMs = rapid.SampledFrom([]int{400, 1500, 2600}).Draw(t, "afterms")
+			if l.After == "resume" {
+				l.Then = rapid.SampledFrom([]string{"", "", "disc0_clean", "disc0_terminate"}).Draw(t, "then")
+			}
 		}
 		s.Lanes = append(s.Lanes, l)
 	}
@@ -128,6 +135,43 @@ func runC08(s c08Scen, c *ev.Case) *ev.Violation {
 		return harnessErr("start broker: %v", err)
 	}
 	defer b.Stop()
+	// Heartbeat: every 20 ms a publish nobody subscribes to goes through the broker's lock. A heartbeat that took longer
+	// than the timing margin proves that the broker was not being scheduled / its lock was not to be had (an overloaded
+	// machine), which is the one situation in which a will published in time can end up behind a deadline marker.
+	type hbStall struct {
+		at time.Time
+		d  time.Duration
+	}
+	var hbMu sync.Mutex
+	var stalls []hbStall
+	hbStop := make(chan struct{})
+	defer close(hbStop)
+	go func() {
+		for {
+			select {
+			case <-hbStop:
+				return
+			case <-time.After(20 * time.Millisecond):
+			}
+			t := time.Now()
+			b.Srv.Publisher().Publish(&gmqtt.Message{Topic: "$hb/none"})
+			if d := time.Since(t); d > timingMargin {
+				hbMu.Lock()
+				stalls = append(stalls, hbStall{t, d})
+				hbMu.Unlock()
+			}
+		}
+	}()
+	stalledBetween := func(lo, hi time.Time) (bool, time.Duration) {
+		hbMu.Lock()
+		defer hbMu.Unlock()
+		for _, st := range stalls {
+			if st.at.Before(hi) && st.at.Add(st.d).After(lo) {
+				return true, st.d
+			}
+		}
+		return false, 0
+	}
 
 	outs := runLanes(len(s.Lanes), func(i int) (o laneOut) {
 		l := s.Lanes[i]
@@ -333,6 +377,25 @@ func runC08(s c08Scen, c *ev.Case) *ev.Violation {
 				a1 := time.Now()
 				if l.After == "resume" && ack.SessionPresent {
 					reattach = &ival{a0, a1}
+					if l.Then == "disc0_clean" || l.Then == "disc0_terminate" {
+						// the resumed connection leaves normally; then the stored session is ended from outside
+						_ = c3.Send(&mw.Packet{Type: mw.DISCONNECT})
+						c3.WaitClosed(fixture.DefaultWait)
+						c3.Kill()
+						if !waitClientGone(b, id) {
+							return fail(harnessErr("client %s still registered 5 s after DISCONNECT", id))
+						}
+						if l.Then == "disc0_terminate" {
+							b.Srv.ClientService().TerminateSession(id)
+						} else {
+							c4, ack4, err := connect(true, false)
+							if err != nil || ack4 == nil || ack4.ReasonCode != 0 {
+								return fail(ev.Violf("C08.reconnect", "reconnect failed: %v %v", ack4, err))
+							}
+							defer c4.Kill()
+						}
+						o.labels = append(o.labels, "resumed_then_"+l.Then)
+					}
 				} else if sessEnd == nil {
 					// clean start, or the session was already gone: whatever session existed ends here at the latest
 					sessEnd = &ival{a0, a1}
@@ -436,6 +499,13 @@ func runC08(s c08Scen, c *ev.Case) *ev.Violation {
 			}
 		}
 		if firstMarker >= 0 && willIdx > firstMarker {
+			if st, d := stalledBetween(window.lo, at); st {
+				// the broker itself was stalled for longer than the margin between the earliest allowed moment and the arrival
+				o.inconclusive = true
+				o.labels = append(o.labels, "broker_stalled_timing_inconclusive")
+				logf("will behind its deadline marker, but a heartbeat through the broker's lock took %v in that period", d)
+				return o
+			}
 			return fail(ev.Violf("C08.too-late", "will arrived %v after the connection ended, behind the marker %s which the harness published one second after the latest moment allowed (%v after the end; delay %v, expiry %v)", at.Sub(end.lo), firstMarkerTag, window.hi.Sub(end.lo), D, E).
 				With("session_ended_explicitly", sessEnd != nil))
 		}
